@@ -31,6 +31,7 @@ RULE = ("sequences of 10-22 residues with >= 3 of each charge and some neutrals 
         "truncated: their steps are still judged, their files are not; distinct = distinct (sequence, configuration, tape); "
         "non-trivial = run with at least one accepted and one rejected in-range proposal")
 RULE += ("; added after the mutation rounds: 2-bin runs with a 2600-step first iteration (ln-DOS beyond 709.8); criterion 0.9 checked every 1-2 steps (streaks of >= 200 failing checks); a second run() on the same machine judged by a fresh shadow automaton; the first cases of every shard are judged again at its end")
+RULE += ("; round 5: thresholds at or above the starting f (no step expected); 6-7 residue chains with few arrangements (proposals identical to the current sequence); requested ranges not aligned to any equal partition")
 EXHAUSTIVE = {"quick": False, "thorough": False}
 ASSUMPTIONS = [
     "bin centres are (i+1/2)/M; a proposal is in range iff its bin index lies in [a, b-1] for the requested range [a/M, b/M]",
@@ -40,6 +41,10 @@ ASSUMPTIONS = [
     "measure-zero distinctions (u == acceptProb) are out of reach; kappa values within 1e-9 of a clamp edge are not "
     "compared with the reference",
     "log files are compared at their print precision (%0.3f, %5.4f, %5.6f)",
+    "a requested range that is not made of whole bins is read as the machine documents it: M = round(nbins / (binmax - binmin)) "
+    "equal bins over [0,1] and the nbins consecutive bins starting at the one whose centre is nearest binmin + width/2; settings "
+    "where that rule is ambiguous (near ties, range running past the last bin, 1/width within 0.08 of a half-integer or an integer) are not driven",
+    "a run whose convergence threshold is at or above the starting modification factor makes no step",
 ]
 REQUIRED = {"all": ["runs", "completed_runs", "steps", "accepted_steps", "rejected_in_range_steps", "out_of_range_proposals",
                     "flat_checks", "flat_checks_flat", "flat_checks_not_flat", "files_checked", "seqlog_lines_checked",
